@@ -87,14 +87,36 @@ def increments_of(loop, lid):
 
 def check(fx, rep, tier):
     cg = F.CallGraph(fx)
+    # poll helpers: a function whose whole body is `a % b == 0 && <watchdog>.should_stop()` with a, b parameters; a call
+    # of it is a poll with the cadence given by the arguments
+    helpers = {}
+    for b in fx.fn_bodies():
+        hir = b.get("hir")
+        if not hir or (fx.fns.get(b["def"], {}).get("output") or "").strip() != "bool":
+            continue
+        body = hir["value"]
+        while body.get("k") == "Block" and not body["block"]["stmts"] and "expr" in body["block"]:
+            body = body["block"]["expr"]
+        conj = split_and(body)
+        cad = [rem_eq_zero(c) for c in conj if rem_eq_zero(c)]
+        polls = [c for c in conj if rem_eq_zero(c) is None]
+        if len(cad) == 1 and len(polls) == 1 and F.strip(polls[0]).get("k") == "MethodCall" and F.callee_def(F.strip(polls[0])) == SHOULD_STOP:
+            plids = [p.get("local") for p in hir["params"]]
+            ci, ii = F.local_of(cad[0][0]), F.local_of(cad[0][1])
+            if ci in plids and ii in plids:
+                helpers[b["def"]] = (plids.index(ci), plids.index(ii))
     sites = []
     for b in fx.fn_bodies():
         hir = b.get("hir")
-        if not hir:
+        if not hir or b["def"] in helpers:
             continue
         for n, ps in F.calls(hir["value"]):
             if F.callee_def(n) == SHOULD_STOP:
                 sites.append((b, n, ps))
+            else:
+                for t in cg.resolve_local(n):
+                    if t in helpers:
+                        sites.append((b, n, ps))
     rep.floor("R13.1", len(sites), 10, "polls (calls of Watchdog::should_stop)")
     per_fn = {}
     for b, n, ps in sites:
@@ -141,6 +163,11 @@ def check(fx, rep, tier):
             r = rem_eq_zero(c)
             if r:
                 cadence = r
+        via_helper = next((helpers[t] for t in cg.resolve_local(n) if t in helpers), None)
+        if via_helper is not None:
+            allargs = F.call_args(n)
+            if max(via_helper) < len(allargs):
+                cadence = (allargs[via_helper[0]], allargs[via_helper[1]])
         call_is_conjunct = any(F.strip(c) is n or any(x is n for x, _ in F.walk(c)) and F.strip(c).get("k") == "MethodCall" for c in conj)
         others = [c for c in conj if rem_eq_zero(c) is None and not any(x is n for x, _ in F.walk(c))]
         ok_shape = cadence is not None and call_is_conjunct and not others
@@ -404,7 +431,20 @@ def check(fx, rep, tier):
                 rep.oblige(in_rem, "R13.5", f"interval-use:{F.strip_generics(b['def'])}", w, "poll_every()'s value is used for something other than the poll divisor")
                 continue
             uses = [(m, mps) for m, mps in F.walk(root) if m.get("k") == "Path" and m.get("res") == "local" and m.get("local") == lid]
-            ok = all(mps and mps[-1][0].get("k") == "Binary" and mps[-1][0]["op"] == "Rem" and mps[-1][1] == "r" for m, mps in uses) and uses
+            def as_divisor(m, mps):
+                if mps and mps[-1][0].get("k") == "Binary" and mps[-1][0]["op"] == "Rem" and mps[-1][1] == "r":
+                    return True
+                # handed to a poll helper in its interval position
+                for anc, key in reversed(mps[-3:]):
+                    if anc.get("k") in ("Call", "MethodCall"):
+                        for t in cg.resolve_local(anc):
+                            if t in helpers:
+                                allargs = F.call_args(anc)
+                                idx = helpers[t][1]
+                                return idx < len(allargs) and any(x is m for x, _ in F.walk(allargs[idx]))
+                return False
+
+            ok = all(as_divisor(m, mps) for m, mps in uses) and uses
             rep.oblige(bool(ok), "R13.5", f"interval-use:{F.strip_generics(b['def'])}", w, "poll_every()'s value is used for something other than the poll divisor")
     rep.floor("R13.5", n_pe, 9, "calls of poll_every")
     return rep.finish(
